@@ -279,17 +279,24 @@ def r5(p, rep):
         )
     # inline decision honours the usage count
     d = p.func("CodeObject.define", "tracer.compiler.python")
-    ifs = [n for n in walk_no_nested(d.node) if isinstance(n, ast.If) and isinstance(n.test, ast.Compare) and "max_usage_num" in norm(n.test.left)]
     ok = False
     why = "no `if self.max_usage_num[obj] > 1: no_inline = True`"
-    for i in ifs:
-        t = i.test
-        if isinstance(t.ops[0], ast.Gt) and isinstance(t.comparators[0], ast.Constant) and t.comparators[0].value == 1 and any(isinstance(s, ast.Assign) and norm(s.targets[0]) == "no_inline" and isinstance(s.value, ast.Constant) and s.value.value is True for s in i.body):
-            ok, why = True, "values with more than one use are never inlined"
-        elif isinstance(t.ops[0], ast.GtE) and isinstance(t.comparators[0], ast.Constant) and t.comparators[0].value == 2:
-            ok, why = True, "values with more than one use are never inlined"
-        else:
-            why = f"inline threshold is `{norm(t)}` (must be: more than one use)"
+    dcfg = CFG(d.node)
+    for a_ in walk_no_nested(d.node):
+        # `no_inline = True` under the fact "used more than once" (facts are expanded through named booleans)
+        if isinstance(a_, ast.Assign) and any(norm(t) == "no_inline" for t in a_.targets) and isinstance(a_.value, ast.Constant) and a_.value.value is True:
+            for t, pol in dcfg.guards_of_ast(a_):
+                if isinstance(t, ast.Compare) and len(t.ops) == 1 and "max_usage_num" in norm(t.left) and isinstance(t.comparators[0], ast.Constant):
+                    k = t.comparators[0].value
+                    if (pol and ((isinstance(t.ops[0], ast.Gt) and k == 1) or (isinstance(t.ops[0], ast.GtE) and k == 2))) or ((not pol) and ((isinstance(t.ops[0], ast.LtE) and k == 1) or (isinstance(t.ops[0], ast.Lt) and k == 2))):
+                        ok, why = True, "values with more than one use are never inlined"
+                    else:
+                        why = f"inline threshold is `{norm(t)}` (must be: more than one use)"
+    if not ok:
+        # `no_inline = no_inline or usage > 1`
+        for a_ in walk_no_nested(d.node):
+            if isinstance(a_, ast.Assign) and any(norm(t) == "no_inline" for t in a_.targets) and "max_usage_num" in norm(a_.value) and ("> 1" in norm(a_.value) or ">= 2" in norm(a_.value)):
+                ok, why = True, "values with more than one use are never inlined"
     rep.add("C04.R5", f"{d.qualname}:inline-threshold", d.loc, ok, why)
     # Call results are assigned unless the callee is a pure builtin
     f2, ch, branches = eval_app_branches(p)
@@ -307,19 +314,53 @@ def r5(p, rep):
         cname = q.split("::")[1]
         body = common.expand_local_helper_calls(br.body, localfns)
         defines = [n for st in body for n in ast.walk(st) if isinstance(n, ast.Call) and norm(n.func) == "code.define"]
-        appends = [n for st in body for n in ast.walk(st) if isinstance(n, ast.Call) and isinstance(n.func, ast.Attribute) and n.func.attr in ("append", "prepend_after_comments", "prepend") and n.args and isinstance(n.args[0], ast.Call) and norm(n.args[0].func).endswith("Statement")]
+        # `stmt = Statement(...); block.append(stmt)` is the same as appending the call directly
+        local_stmts = {t.id: a_.value for st in body for a_ in ast.walk(st) if isinstance(a_, ast.Assign) and isinstance(a_.value, ast.Call) and norm(a_.value.func).endswith("Statement") for t in a_.targets if isinstance(t, ast.Name)}
+        appends = []
+        for st in body:
+            for n in ast.walk(st):
+                if isinstance(n, ast.Call) and isinstance(n.func, ast.Attribute) and n.func.attr in ("append", "prepend_after_comments", "prepend") and n.args:
+                    a0_ = n.args[0]
+                    if isinstance(a0_, ast.Name) and a0_.id in local_stmts:
+                        n = ast.copy_location(ast.Call(func=n.func, args=[local_stmts[a0_.id]], keywords=[]), n)
+                        a0_ = n.args[0]
+                    if isinstance(a0_, ast.Call) and norm(a0_.func).endswith("Statement"):
+                        appends.append(n)
         site = f"{f2.module.rel}:{br.lineno}"
         if cname == "Call":
             for dcall in defines:
                 ni = common.kwarg(dcall, "no_inline")
+                # a boolean bound to a local first (`may_inline = ...; define(..., no_inline=not may_inline)`)
+                if ni is not None:
+                    locals_ = {t.id: a_.value for st in body for a_ in ast.walk(st) if isinstance(a_, ast.Assign) and len(a_.targets) == 1 for t in a_.targets if isinstance(t, ast.Name)}
+                    for _ in range(3):
+                        if isinstance(ni, ast.Name) and ni.id in locals_:
+                            ni = locals_[ni.id]
+                        elif isinstance(ni, ast.UnaryOp) and isinstance(ni.op, ast.Not) and isinstance(ni.operand, ast.Name) and ni.operand.id in locals_:
+                            ni = ast.UnaryOp(op=ast.Not(), operand=locals_[ni.operand.id])
                 text = norm(ni) if ni is not None else ""
                 if ni is not None and isinstance(ni, ast.UnaryOp) and isinstance(ni.operand, ast.Call) and isinstance(ni.operand.func, ast.Name) and ni.operand.func.id in localfns:
                     text += " :: " + " ".join(norm(b) for b in localfns[ni.operand.func.id].body)
                 ok = ni is not None and isinstance(ni, ast.UnaryOp) and isinstance(ni.op, ast.Not) and "allow_inline_functions" in text
+                ni0 = common.kwarg(dcall, "no_inline")
+                if not ok and isinstance(ni0, ast.UnaryOp) and isinstance(ni0.op, ast.Not) and isinstance(ni0.operand, ast.Name):
+                    # a flag found by a search loop: every `flag = True` lies in a loop over / test against the allow-list
+                    flag = ni0.operand.id
+                    sets = [a_ for st in body for a_ in ast.walk(st) if isinstance(a_, ast.Assign) and any(isinstance(t, ast.Name) and t.id == flag for t in a_.targets)]
+                    trues = [a_ for a_ in sets if not (isinstance(a_.value, ast.Constant) and a_.value.value in (False, None))]
+                    def _under_allowlist(a_):
+                        q = getattr(a_, "_parent", None)
+                        while q is not None and q is not br:
+                            if isinstance(q, ast.For) and "allow_inline_functions" in norm(q.iter):
+                                return True
+                            if isinstance(q, ast.If) and "allow_inline_functions" in norm(q.test):
+                                return True
+                            q = getattr(q, "_parent", None)
+                        return "allow_inline_functions" in norm(a_.value)
+                    ok = bool(trues) and all(_under_allowlist(a_) for a_ in trues) and all(isinstance(a_.value, ast.Constant) or "allow_inline_functions" in norm(a_.value) for a_ in sets)
                 rep.add("C04.R5", f"{f2.qualname}:Call:no_inline", site, ok, f"no_inline={norm(ni) if ni is not None else '<default False>'}" + ("" if ok else ": results of arbitrary calls may be inlined and re-evaluated at every use"))
         if cname in ("CallInplace", "UpdateItem", "Assert"):
-            order = [n for st in body for n in ast.walk(st) if n in appends or n in defines]
-            ok = bool(appends) and bool(defines) and order.index(appends[0]) < order.index(defines[0])
+            ok = bool(appends) and bool(defines) and (appends[0].lineno, appends[0].col_offset) < (defines[0].lineno, defines[0].col_offset)
             rep.add("C04.R5", f"{f2.qualname}:{cname}:statement", site, ok, "a Statement is appended to the block before the output is defined as an alias" if ok else f"the {cname} branch defines its output without emitting a statement first: the side effect is lost or reordered")
             for dcall in defines:
                 fi = common.kwarg(dcall, "force_inline")
@@ -376,77 +417,83 @@ def r6(p, rep):
         raise AnalysisError(f"unrecognised idiom: expected one call of the group-merging helper in the code generator, found {len(sites)}")
     f, fuse, fc = sites[0]
     site = f"{f.module.rel}:{fc.lineno}"
-    a0 = fc.args[0]
-    loop = enclosing(fc, ast.For)
-    if loop is None:
-        raise AnalysisError("unrecognised idiom: group merging is not done inside the statement loop")
-    if isinstance(a0, ast.Call) and isinstance(a0.func, ast.Attribute) and a0.func.attr == "pop" and not a0.args:
-        # fuse(<set>.pop(), ...): the candidate is taken from the set right in the call
-        popcall = a0
-    elif isinstance(a0, ast.Name):
-        pops = [n for n in ast.walk(loop) if isinstance(n, ast.Assign) and any(isinstance(t, ast.Name) and t.id == a0.id for t in n.targets)]
-        if len(pops) != 1 or not (isinstance(pops[0].value, ast.Call) and isinstance(pops[0].value.func, ast.Attribute) and pops[0].value.func.attr == "pop"):
-            raise AnalysisError("unrecognised idiom: the fused input variable is not obtained by <set>.pop()")
-        popcall = pops[0].value
-    else:
-        raise AnalysisError("unrecognised idiom: first argument of the group-merging call is neither a name nor <set>.pop()")
-    setname = norm(popcall.func.value)
-    comps = [n for n in ast.walk(loop) if isinstance(n, ast.Assign) and any(norm(t) == setname for t in n.targets) and isinstance(n.value, ast.SetComp) and n.lineno < popcall.lineno]
-    # collect all conditions a candidate has to satisfy (comprehension filters, expanded through local predicates)
-    conds = []
-    localfns = {g.name: g for g in p.funcs.values() if g.parent is f or g.parent is comp}
-    for c in comps:
-        for cond in c.value.generators[0].ifs:
-            for t, pol in decompose(cond, True):
-                if pol and isinstance(t, ast.Call) and isinstance(t.func, ast.Name) and t.func.id in localfns:
-                    tf = _truth_facts(p, localfns[t.func.id])
-                    if len(tf) == 1:
-                        conds += tf[0]
-                        continue
-                conds.append((t, pol))
-    texts = [(norm(t), pol) for t, pol in conds]
-    rep.info["fusion_filters"] = [t if pol else f"not ({t})" for t, pol in texts]
+    from .elempreds import ElemPreds
+
+    ep = ElemPreds()
+    cand = ep.of(fc.args[0], f.node)  # what is known about the variable that loses its name
+    other = ep.of(fc.args[1], f.node)
+    preds = cand.preds
+    rep.info["fusion_filters"] = [norm(x) for x in preds]
+    if not preds and cand.unknown:
+        raise AnalysisError("unrecognised idiom: cannot trace the first argument of the group-merging call back to filtered collections")
+
     # (1) allow_reusing_name
-    ok1 = any(isinstance(t, ast.Attribute) and t.attr == "allow_reusing_name" and pol for t, pol in conds)
+    ok1 = any(isinstance(t, ast.Attribute) and t.attr == "allow_reusing_name" and norm(t.value) == "_v" for x in preds for t, pol in decompose(x, True) if pol)
     rep.add("C04.R6", f"{comp.qualname}:fuse:allow_reusing_name", site, ok1, "candidates are filtered by allow_reusing_name" if ok1 else "imports / constants (allow_reusing_name=False) can lose their name to another value")
 
     def all_over_dependents(c):
-        """all(<elt> for <s> in <dependents of v>) -> elt or None"""
-        if isinstance(c, ast.Call) and isinstance(c.func, ast.Name) and c.func.id == "all" and c.args and isinstance(c.args[0], ast.GeneratorExp):
+        """all(<elt> for <s> in <map>[id(_v)]) -> (elt, loop variable) or None"""
+        if isinstance(c, ast.Call) and isinstance(c.func, ast.Name) and c.func.id == "all" and c.args and isinstance(c.args[0], (ast.GeneratorExp, ast.ListComp)):
             ge = c.args[0]
-            if len(ge.generators) != 1 or ge.generators[0].ifs:
+            if len(ge.generators) != 1 or ge.generators[0].ifs or not isinstance(ge.generators[0].target, ast.Name):
                 return None
             it = ge.generators[0].iter
-            txt = norm(it)
-            if isinstance(it, ast.Name):
-                ds = [n.value for g_ in list(localfns.values()) + [f] for n in ast.walk(g_.node) if isinstance(n, ast.Assign) and any(isinstance(t, ast.Name) and t.id == it.id for t in n.targets)]
-                txt = " ".join(norm(d) for d in ds)
-            if "dependent" in txt and "[id(" in txt:
-                return ge.elt
+            if isinstance(it, ast.Subscript) and norm(it.slice) == "id(_v)" and "dependent" in norm(it.value):
+                return ge.elt, ge.generators[0].target.id
         return None
 
+    # the set of statements already emitted in this block: a local set that receives id(<loop statement>) in the
+    # statement loop and is created empty inside the block loop
+    seen_sets = set()
+    for n in ast.walk(f.node):
+        if isinstance(n, ast.Call) and isinstance(n.func, ast.Attribute) and n.func.attr == "add" and isinstance(n.func.value, ast.Name) and n.args and norm(n.args[0]).startswith("id("):
+            loop = enclosing(n, ast.For)
+            if loop is not None and isinstance(loop.target, ast.Name) and norm(n.args[0]) == f"id({loop.target.id})":
+                inits = [a_ for a_ in ast.walk(f.node) if isinstance(a_, ast.Assign) and any(isinstance(t, ast.Name) and t.id == n.func.value.id for t in a_.targets)]
+                if inits and all(isinstance(a_.value, ast.Call) and norm(a_.value.func) == "set" and not a_.value.args for a_ in inits) and all(enclosing(a_, ast.For) is not None and enclosing(a_, ast.For) is not loop for a_ in inits):
+                    seen_sets.add(n.func.value.id)
     ok2 = ok3 = False
-    for t, pol in conds:
-        if not pol:
-            continue
-        elt = all_over_dependents(t)
-        if elt is None or not isinstance(elt, ast.Compare):
-            continue
-        if isinstance(elt.ops[0], ast.Eq) and ".block" in norm(elt.left) and ".block" in norm(elt.comparators[0]):
-            ok2 = True
-        if isinstance(elt.ops[0], ast.In) and norm(elt.left).startswith("id(") and "seen" in norm(elt.comparators[0]):
-            ok3 = True
-    rep.add("C04.R6", f"{comp.qualname}:fuse:same-block-dependents", site, ok2, "all dependent statements of the candidate are in the statement's block" if ok2 else "the filter `every dependent statement lives in this block` is missing: a value still needed by a nested function (closure, late binding) can be overwritten")
-    rep.add("C04.R6", f"{comp.qualname}:fuse:dead-after", site, ok3, "all dependent statements of the candidate were already seen (the value is dead after this statement)" if ok3 else "the liveness filter is not `all(id(dependent) in seen ...)` over ALL dependents of the variable: a name can be re-used while its old value is still needed")
+    for x in preds:
+        for t, pol in decompose(x, True):
+            if not pol:
+                continue
+            r = all_over_dependents(t)
+            if r is None or not isinstance(r[0], ast.Compare) or len(r[0].ops) != 1:
+                continue
+            elt, dv = r
+            l, rr = norm(elt.left), norm(elt.comparators[0])
+            if isinstance(elt.ops[0], (ast.Eq, ast.Is)) and {l, rr} == {"_v.block", f"{dv}.block"}:
+                ok2 = True
+            if isinstance(elt.ops[0], ast.In) and l == f"id({dv})" and rr in seen_sets:
+                ok3 = True
+    rep.add("C04.R6", f"{comp.qualname}:fuse:same-block-dependents", site, ok2, "all dependent statements of the candidate are in the candidate's block" if ok2 else "the filter `every dependent statement lives in this block` is missing: a value still needed by a nested function (closure, late binding) can be overwritten")
+    rep.add("C04.R6", f"{comp.qualname}:fuse:dead-after", site, ok3, f"all dependent statements of the candidate were already emitted (member of {sorted(seen_sets)}): the value is dead after this statement" if ok3 else "the liveness filter is not `all(id(dependent) in <statements emitted so far>)` over ALL dependents of the variable: a name can be re-used while its old value is still needed (e.g. by a statement of another block)")
     cfg = CFG(f.node)
     facts = cfg.guards_of_ast(fc)
-    ok4 = any(pol and ".block" in norm(t) and ("==" in norm(t) or " is " in norm(t)) for t, pol in facts)
+
+    def block_of(e):
+        t = norm(e)
+        return t[3:-1] if t.startswith("id(") and t.endswith(")") else t
+
+    a0t, a1t = norm(fc.args[0]), norm(fc.args[1])
+    ok4 = any(pol and isinstance(t, ast.Compare) and len(t.ops) == 1 and isinstance(t.ops[0], (ast.Eq, ast.Is)) and {block_of(t.left), block_of(t.comparators[0])} == {f"{a0t}.block", f"{a1t}.block"} for t, pol in facts)
+    if not ok4 and not (isinstance(fc.args[0], ast.Name) and isinstance(fc.args[1], ast.Name)):
+        # the arguments are expressions (e.g. <set>.pop()): accept any block equality over their sources
+        ok4 = any(pol and isinstance(t, ast.Compare) and isinstance(t.ops[0], (ast.Eq, ast.Is)) and norm(t.left).rstrip(")").endswith(".block") and norm(t.comparators[0]).rstrip(")").endswith(".block") for t, pol in facts)
     rep.add("C04.R6", f"{comp.qualname}:fuse:same-block-pair", site, ok4, "merge only when input and output variable live in the same block" if ok4 else "the merge is not guarded by equal blocks of the two variables")
-    out_pop = [n for n in ast.walk(loop) if isinstance(n, ast.Assign) and isinstance(n.value, ast.Call) and isinstance(n.value.func, ast.Attribute) and n.value.func.attr == "pop" and n.value is not popcall]
-    b1 = common.len_bounds(facts, setname)
-    b2 = common.len_bounds(facts, norm(out_pop[0].value.func.value)) if out_pop else (0, None)
-    ok5 = b1 == (1, 1) and b2 == (1, 1)
-    rep.add("C04.R6", f"{comp.qualname}:fuse:unique", site, ok5, "exactly one output and exactly one dead input" if ok5 else f"fusion is not restricted to a unique output / unique dead input (bounds {b2} / {b1})")
+    # uniqueness: every selection on the way (pop / next / [0]) is made from a collection known to have one element
+    sels = cand.selections + other.selections
+    bad = []
+    for sel, fn in sels:
+        c2 = ep.cfg(fn)
+        coll = sel.func.value if isinstance(sel, ast.Call) and isinstance(sel.func, ast.Attribute) else (sel.args[0] if isinstance(sel, ast.Call) and sel.args else getattr(sel, "value", None))
+        if isinstance(coll, ast.Call) and norm(coll.func) == "iter" and coll.args:
+            coll = coll.args[0]
+        cname = norm(coll) if coll is not None else "?"
+        if common.len_bounds(c2.guards_of_ast(sel), cname) != (1, 1):
+            bad.append(cname)
+    ok5 = len(cand.selections) >= 1 and len(other.selections) >= 1 and not bad
+    rep.add("C04.R6", f"{comp.qualname}:fuse:unique", site, ok5, "exactly one output and exactly one dead input" if ok5 else f"fusion is not restricted to a unique output / unique dead input (selections from {bad or 'no collection'} without a len == 1 guard)")
 
 
 def r7(p, rep):
@@ -531,22 +578,30 @@ def r8(p, rep):
     nm = store.value.id
     defs = [a for a in ast.walk(host.node) if isinstance(a, ast.Assign) and any(isinstance(t, ast.Name) and t.id == nm for t in a.targets)]
     gens, hint_defs = [], []
-    nested = {g.name: g for g in p.funcs.values() if g.parent is host}
+    nested = {g.name: g for g in p.funcs.values() if g.parent is host or (g.module is m and g.parent is None and g.cls is None)}
+    gen_args = {}  # generator function name -> {param: argument expression at the call that creates the generator}
+
+    def flat(v):
+        return flat(v.body) + flat(v.orelse) if isinstance(v, ast.IfExp) else [v]
+
     for a in defs:
-        v = a.value
-        if isinstance(v, ast.Call) and isinstance(v.func, ast.Name) and v.func.id == "next" and v.args and isinstance(v.args[0], ast.Name):
-            it = v.args[0].id
-            cands = set()
-            if it in nested:
-                cands.add(it)
-            for b in ast.walk(host.node):
-                if isinstance(b, ast.Assign) and any(isinstance(t, ast.Name) and t.id == it for t in b.targets) and isinstance(b.value, ast.Call) and isinstance(b.value.func, ast.Name) and b.value.func.id in nested:
-                    cands.add(b.value.func.id)
-            for c in cands:
-                if any(isinstance(y, (ast.Yield, ast.YieldFrom)) for y in walk_no_nested(nested[c].node)):
-                    gens.append((a, nested[c]))
-        else:
-            hint_defs.append(a)
+        for v in flat(a.value):
+            if isinstance(v, ast.Call) and isinstance(v.func, ast.Name) and v.func.id == "next" and v.args and isinstance(v.args[0], ast.Name):
+                it = v.args[0].id
+                cands = set()
+                if it in nested:
+                    cands.add(it)
+                for b in ast.walk(host.node):
+                    if isinstance(b, ast.Assign) and any(isinstance(t, ast.Name) and t.id == it for t in b.targets) and isinstance(b.value, ast.Call) and isinstance(b.value.func, ast.Name) and b.value.func.id in nested:
+                        cands.add(b.value.func.id)
+                        g_ = nested[b.value.func.id]
+                        gen_args[g_.name] = {g_.params[i]: x for i, x in enumerate(b.value.args) if i < len(g_.params)}
+                        gen_args[g_.name].update({k.arg: k.value for k in b.value.keywords if k.arg})
+                for c in cands:
+                    if any(isinstance(y, (ast.Yield, ast.YieldFrom)) for y in walk_no_nested(nested[c].node)):
+                        gens.append((a, nested[c]))
+            else:
+                hint_defs.append(ast.Assign(targets=a.targets, value=v))
     if not gens:
         raise AnalysisError("unrecognised idiom: no name generator (`name = next(<generator>)`) feeds the variable -> name map")
     hint_src = _closure(host.node, {x.id for a in hint_defs for x in ast.walk(a.value) if isinstance(x, ast.Name)}) - {nm}
@@ -578,7 +633,12 @@ def r8(p, rep):
             res = False
             for t, pol in facts:
                 if isinstance(t, ast.Compare) and len(t.ops) == 1 and norm(t.left) == yv and ((isinstance(t.ops[0], ast.NotIn) and pol) or (isinstance(t.ops[0], ast.In) and not pol)):
-                    feeding = _closure(host.node, {x.id for x in ast.walk(t.comparators[0]) if isinstance(x, ast.Name)})
+                    cnames = set()
+                    for x in ast.walk(t.comparators[0]):
+                        if isinstance(x, ast.Name):
+                            arg = gen_args.get(g.name, {}).get(x.id)
+                            cnames |= {y.id for y in ast.walk(arg) if isinstance(y, ast.Name)} if arg is not None else {x.id}
+                    feeding = _closure(host.node, cnames)
                     if feeding & hint_src:
                         res = True
             if prefix is not None and not res:
@@ -589,6 +649,10 @@ def r8(p, rep):
 def r9(p, rep):
     rep.rule("C04.R9", "the expression cache of the code generator keys list, tuple and dict values apart (the emitted container is the one the graph asks for)", "T-EXH (tagged key per container kind)", floor=3)
     comp = compile_func(p)
+    _MODULE_CONSTS.clear()
+    for st in comp.module.tree.body:
+        if isinstance(st, ast.Assign) and len(st.targets) == 1 and isinstance(st.targets[0], ast.Name) and isinstance(st.value, ast.Constant):
+            _MODULE_CONSTS[st.targets[0].id] = st.value.value
     cands = []
     for f in p.funcs.values():
         if f.module is not comp.module or f.cls is None:
@@ -635,9 +699,16 @@ def _leading_tag(e):
     x = e
     while isinstance(x, ast.BinOp) and isinstance(x.op, ast.Add):
         x = x.left
-    if isinstance(x, ast.Tuple) and x.elts and isinstance(x.elts[0], ast.Constant) and (len(x.elts) == 1 and x is not e or any(isinstance(y, ast.Starred) for y in x.elts[1:])):
-        return x.elts[0].value
+    if isinstance(x, ast.Tuple) and x.elts and (len(x.elts) == 1 and x is not e or any(isinstance(y, ast.Starred) for y in x.elts[1:])):
+        t = x.elts[0]
+        if isinstance(t, ast.Constant):
+            return t.value
+        if isinstance(t, ast.Name) and _MODULE_CONSTS.get(t.id) is not None:
+            return _MODULE_CONSTS[t.id]
     return None
+
+
+_MODULE_CONSTS = {}
 
 
 def run(p, rep, tier):
